@@ -4,7 +4,7 @@ from fractions import Fraction
 from common import *
 from absint import lower_driver, Unsupported, Machine, explore, ptr
 from tensoralg import *
-from domains import PolyDomain
+from domains import PolyDomain, DegreeDomain
 import poly as P
 
 RULE = ("Poly-domain abstract interpretation of CubicRoots::find_roots with path forking and cut points (the depressed "
@@ -12,6 +12,54 @@ RULE = ("Poly-domain abstract interpretation of CubicRoots::find_roots with path
         "the depressed cubic; (b) on the |p|<prec, |q|<prec and |delta|<prec paths every slot announced as a real root "
         "satisfies X^3+pX+q = 0 modulo the path relation and the radical relations, the single real root is in x1 and "
         "x2 = x3 = -X1/2 - a2/(3a3) hold the real part of the conjugate pair")
+
+
+def homogeneity(rep, mod):
+    """(d) scale invariance of the branch decisions: under x -> lambda x, P -> mu P the coefficients scale as
+    a_k ~ lambda^(3-k) mu; every comparison of find_roots must compare quantities of the same scaling degree, or a
+    quantity with a zero-like constant; the slots returned must scale like lambda."""
+    dom = DegreeDomain(2)
+    m = Machine(mod, dom)
+    bases = {}
+
+    def make_args(mm):
+        b = mm.alloc("a")
+        for i in range(4):
+            mm.store(ptr(b, 8 * i), dom.hom(3 - i, 1), 8)
+        o = mm.alloc("x")
+        bases["x"] = o
+        return [ptr(b, 0), ptr(o, 0)]
+    try:
+        res = explore(m, "verif_find_roots", make_args, max_paths=400)
+    except Unsupported as e:
+        raise AnalysisBroken("find_roots (degree domain): %s" % e)
+    rep.count("paths explored (degree domain)", len(res))
+    seen = {}
+    for ok, txt, why in dom.cmps:
+        seen.setdefault((ok, txt, why), 0)
+        seen[(ok, txt, why)] += 1
+    for (ok, txt, why), n_ in sorted(seen.items(), key=lambda kv: str(kv[0])):
+        rep.count("comparisons checked for scale invariance")
+        if ok:
+            rep.ok("comparison %s is scale invariant" % txt)
+        else:
+            rep.fail("SCALE-DEPENDENT-BRANCH@CubicRoots::find_roots#%s" % txt,
+                     "CubicRoots::find_roots: %s (%s): the branch taken depends on the scale of the roots, so for inputs small or "
+                     "large enough the wrong special case is selected" % (why, txt))
+    for path, ret, mem, trace, assum in res:
+        for i in range(3):
+            c = mem[bases["x"]].get(8 * i)
+            if c is None:
+                continue
+            v = c[0]
+            if isinstance(v, tuple) and v and v[0] == "hom":
+                if v[1] != (1, 0):
+                    rep.fail("SCALE-DEPENDENT-RESULT@CubicRoots::find_roots#x%d" % (i + 1),
+                             "a value stored in x%d scales with degree %s instead of (1,0) (like the roots)" % (i + 1, dom.show(v)))
+            elif isinstance(v, tuple) and v and v[0] == "mixed":
+                rep.fail("SCALE-DEPENDENT-RESULT@CubicRoots::find_roots#x%d" % (i + 1), "a value stored in x%d is not homogeneous in the scale of the roots" % (i + 1))
+    if not rep.violations:
+        rep.ok("every value stored in x1, x2, x3 scales like the roots on all %d paths" % len(res))
 
 
 def run(tier):
@@ -54,6 +102,8 @@ def run(tier):
         o = mm.alloc("x")
         bases["x"] = o
         return [ptr(b, 0), ptr(o, 0)]
+    homogeneity(rep, mod)
+    rep.floor("comparisons checked for scale invariance", 3)
     try:
         res = explore(m, "verif_find_roots", make_args, max_paths=400)
     except Unsupported as e:
